@@ -415,13 +415,46 @@ class Unit:
                     return key
         return None
 
+    def global_array_at(self, q, node):
+        """constant std::array global: an accessor function over its initialiser list; returns (C function name, element count)"""
+        name = mangle(q) + '_at'
+        lst = [x for x in node.get('inner', []) or [] if x.get('kind') == 'InitListExpr']
+        if not lst:
+            raise Unsupported('std::array global %s without initialiser list' % q)
+        inner = [x for x in lst[0].get('inner', []) or [] if x.get('kind') == 'InitListExpr']
+        elems = [x for x in (inner[0] if inner else lst[0]).get('inner', []) or [] if 'kind' in x]
+        if not elems:
+            raise Unsupported('std::array global %s is empty' % q)
+        et = strip_ref(self.P.typeof(elems[0]))
+        if name not in self.globals_c:
+            cases = []
+            for k_, el in enumerate(elems):
+                sub = FnTranslator(self.P, self, '<element %d of %s>' % (k_, q), {'kind': 'FunctionDecl', 'type': {'qualType': 'void ()'}})
+                sub.ret_t = ('void',)
+                e = sub.init_value(el, et)
+                cases.append('case %d: { %s return %s; }' % (k_, ' '.join(sub.pre), e))
+            self.need_type(et)
+            self.globals_c[name] = 'static %s %s(size_t i) { switch (i) { %s } %s z; return z; }' % (cname(et), name, ' '.join(cases), cname(et))
+        return name, len(elems), et
+
     def global_const(self, q, node, ft):
         name = mangle(q)
+        if name in getattr(self, 'global_is_fn', set()):
+            return name + '()'
         if name not in self.globals_c:
             t = self.P.typeof(node)
             inits = [x for x in node.get('inner', []) or [] if 'kind' in x and not x['kind'].endswith('Attr') and x['kind'] != 'FullComment']
             if not inits:
                 raise Unsupported('global %s without initialiser' % q)
+            if t[0] == 'rec':
+                # constant of record type: a function returning the value its initialiser denotes
+                sub = FnTranslator(self.P, self, '<initialiser of %s>' % q, {'kind': 'FunctionDecl', 'type': {'qualType': 'void ()'}})
+                sub.ret_t = ('void',)
+                e = sub.init_value(inits[0], t)
+                self.need_type(t)
+                self.globals_c[name] = 'static %s %s(void) { %s return %s; }' % (cname(t), name, ' '.join(sub.pre), e)
+                self.global_is_fn = getattr(self, 'global_is_fn', set()) | {name}
+                return name + '()'
             if t[0] not in ('int', 'double', 'bool', 'float', 'enum'):
                 raise Unsupported('non-scalar global %s' % q)
             sub = FnTranslator(self.P, self, '<initialiser of %s>' % q, {'kind': 'FunctionDecl', 'type': {'qualType': 'void ()'}})
@@ -604,7 +637,8 @@ class Unit:
             if (m, None) in self.models:
                 out.append('#include "verif_%s.h"' % m)
         for g in self.globals_c.values():
-            out.append(g)
+            if not g.startswith('static '):
+                out.append(g)
         out.append('/* prototypes */')
         for key, (head, lines, ft) in self.done.items():
             out.append(head + ';')
@@ -623,6 +657,11 @@ class Unit:
         for name, text in self.helpers.items():
             if text:
                 out.append(text)
+        # constants of record / std::array type: functions over their initialisers (after the constructors they may call);
+        # record constants first (array accessors refer to them)
+        gfn = [g for g in self.globals_c.values() if g.startswith('static ')]
+        for g in sorted(gfn, key=lambda g_: '(size_t i)' in g_.split('{')[0]):
+            out.append(g)
         for lid, (name, head, lines, caps) in self.lambdas.items():
             out.append('/* lifted lambda */')
             out.append(head)
